@@ -164,6 +164,37 @@ class Run:
                                                                "identical" if r["identical"] else "MODEL DRIFT"))
         return r
 
+    def run_sim(self, sims):
+        """TLC's simulator generates behaviours of the implementation-shaped tree models in universes far beyond the
+        exhaustive ones; the harness replays them on the real code (job map, VERIF_SIM): recorded and validated like any
+        other history, and compared state by state with what the model predicted (model_replay; never a verdict)."""
+        d = os.path.join(self.work, "sim")
+        os.makedirs(d, exist_ok=True)
+        def one(s):
+            num = s["num"] * (4 if self.tier == "thorough" else 1)
+            out = self.tlc(s["spec"] + ".tla", s["cfg"], workers=1, xmx="2g", timeout=900,
+                           extra=["-simulate", "num=%d" % num, "-depth", str(s["depth"] + 1), "-seed", str(self.seed)])
+            if "Finished in" not in out or "Error:" in out:
+                raise Infra("TLC simulation of %s failed:\n%s" % (s["cfg"], out[-2000:]))
+            kept, prev = [], None
+            for line in out.splitlines():
+                if not line.startswith('"B|'):
+                    continue
+                t = line[3:-1].replace('\\"', '"')
+                # the simulator evaluates the printing invariant on every successor of the last state: keep one per behaviour
+                pre = t[:t.rfind(',["')]
+                if pre != prev:
+                    kept.append(t)
+                    prev = pre
+            with open(os.path.join(d, s["cfg"][:-4] + ".ndjson"), "w") as f:
+                f.write("\n".join(kept) + ("\n" if kept else ""))
+            log("  SIM %-10s %3d behaviours of %d calls generated by TLC" % (s["cfg"][:-4], len(kept), s["depth"]))
+            return {"model": s["spec"] + "/" + s["cfg"], "behaviours": len(kept), "depth": s["depth"]}
+        with cf.ThreadPoolExecutor(max_workers=4) as ex:
+            res = list(ex.map(one, sims))
+        os.environ["VERIF_SIM"] = d
+        return res
+
     # -------------------------------------------------------------------------------- traces
     def record(self, harness, job, kind, idx, retried=False):
         out = os.path.join(self.work, "%s-%s-%d.ndjson" % (job, kind or "all", idx))
@@ -333,6 +364,9 @@ class Run:
             if len(self.cov["samples"]) < 12:
                 self.cov["samples"] += stats.get("samples", [])[:3]
             for k, v in (stats.get("extra") or {}).items():
+                if k == "sim":       # replay of TLC-simulated behaviours: one entry per (kind, model)
+                    self.extra.setdefault("model_replay", {}).setdefault("replayed", []).extend(v)
+                    continue
                 self.extra[k] = self.extra.get(k, 0) + v if isinstance(v, (int, float)) else v
             if os.path.getsize(path) == 0:
                 continue
@@ -439,6 +473,8 @@ def check(prop, tier, seed, only_event=None):
                 run.extra["model_drift"] = not all(r["identical"] for r in run.extra["model_fidelity"])
             except Exception as ex:  # never a verdict
                 run.extra["model_fidelity"] = [{"error": str(ex)[:300]}]
+        if p.get("sim"):
+            run.extra["model_replay"] = {"generated": run.run_sim(p["sim"])}
         run.run_traces(harness, harness_race, [tj for tj in p.get("traces", []) if not (tier == "quick" and tj.get("thorough_only"))])
         # report
         for fid, n in sorted(run.known_hits.items()):
